@@ -117,6 +117,29 @@ def crafted_script(rng):
     return s
 
 
+# (added after the seeded change C14-unresolved-arguments-skip-hash-check was missed) a call whose argument comes from a par
+# sibling that the victim has not seen: owner Q has two signed results of one function (other arguments), a relay M carries
+# them to the victim P; moving Q's first result into the slot of the dependent call leaves every signature valid, only the
+# argument-hash check at the instruction (arguments unresolved on P) stands between the forgery and acceptance
+def dependent_script(rng):
+    p, q, r, m = rng.sample(["A", "B", "C", "D"], 4)
+    fn = rng.choice(["id", "args"])
+    s = ('(par (call "@%s" ("s" "tag") [] acct) '
+         '(par (seq (call "@%s" ("s" "%s") ["guest"] g) (seq (call "@%s" ("s" "tag") [g] t2) (call "@%s" ("s" "id") [t2] fin))) '
+         '(seq (call "@%s" ("s" "%s") [acct] ok) (call "@%s" ("s" "args") [ok] res))))') % (r, q, fn, m, p, q, fn, p)
+    return s, "ABCD".index(p)
+
+
+def dependent_tampers(rng, n):
+    out = []
+    for _ in range(n):
+        ops = [{"kind": "relocate", "sel": rng.randrange(64), "arg": 2 * rng.randrange(32) + 1}]
+        if rng.random() < 0.3:
+            ops.append(one_op(rng))
+        out.append({"delivery": rng.randrange(1 << 16), "ops": ops, "resign": rng.random() < 0.5})
+    return out
+
+
 def gen_cases(rng, tier, escalate=False):
     mult = 3 if escalate else 1
     n_gen = {"quick": 26, "thorough": 200}[tier] * mult
@@ -135,6 +158,10 @@ def gen_cases(rng, tier, escalate=False):
         cases.append({"gen": "craft", "script": crafted_script(rng), "peers": peers, "init": rng.randrange(3),
                       "services": SERVICES, "ops": airgen.gen_schedule(rng, n_ops=rng.choice([0, 4, 8])),
                       "particle_id": "crafted-%d" % k, "tampers": gen_tampers(rng, per + 6)})
+    for k in range({"quick": 6, "thorough": 40}[tier] * mult):
+        script, init = dependent_script(rng)
+        cases.append({"gen": "dependent", "script": script, "peers": airgen.PEERS[:4], "init": init, "services": SERVICES,
+                      "ops": airgen.fifo_schedule(6), "particle_id": "dependent-%d" % k, "tampers": dependent_tampers(rng, per + 16)})
     return cases
 
 
